@@ -62,7 +62,7 @@ FrameOf(fid) == frames[fid]
 Complete(fid, retv, exc) ==
   LET fr == FrameOf(fid)
   IN  IF fr.wanted
-      THEN Append(pending, [f |-> fr.f, args |-> fr.args, ys |-> fr.ys, ret |-> retv, exc |-> exc])
+      THEN Append(pending, [f |-> fr.f, args |-> fr.args, ys |-> fr.ys, ret |-> retv, exc |-> exc, must |-> fr.must])
       ELSE pending
 
 \* index of the first pending call that log entry lg can describe (0 if none)
@@ -75,10 +75,14 @@ BestSameF(lg, k) ==
       n(j) == Cardinality(LogViol(pending[j], lg, k))
   IN  IF C = {} THEN 0
       ELSE CHOOSE j \in C : \A h \in C : n(j) < n(h) \/ (n(j) = n(h) /\ j <= h)
-FirstExact(lg, k) == IF \E j \in 1..Len(pending) : pending[j].f = lg.f /\ LogViol(pending[j], lg, k) = {}
+Exact(j, lg, k) == pending[j].f = lg.f /\ LogViol(pending[j], lg, k) = {}
+\* the oldest exactly described pending call; among several, one that the sampling draw obliges to be logged first
+FirstExact(lg, k) == IF \E j \in 1..Len(pending) : Exact(j, lg, k) /\ pending[j].must
                      THEN CHOOSE j \in 1..Len(pending) :
-                            /\ pending[j].f = lg.f /\ LogViol(pending[j], lg, k) = {}
-                            /\ \A h \in 1..(j - 1) : ~(pending[h].f = lg.f /\ LogViol(pending[h], lg, k) = {})
+                            /\ Exact(j, lg, k) /\ pending[j].must
+                            /\ \A h \in 1..(j - 1) : ~(Exact(h, lg, k) /\ pending[h].must)
+                     ELSE IF \E j \in 1..Len(pending) : Exact(j, lg, k)
+                     THEN CHOOSE j \in 1..Len(pending) : Exact(j, lg, k) /\ \A h \in 1..(j - 1) : ~Exact(h, lg, k)
                      ELSE 0
 
 Step ==
@@ -88,7 +92,14 @@ Step ==
          k == Recs[i].k
      IN
      CASE e.ev = "Call" ->
-            /\ frames' = Append(frames, [f |-> e.f, wanted |-> e.wanted, args |-> ArgSetV(e.args), ys |-> {}])
+            \* must = the tracer consulted the sampling RNG at this call's entry and the draw said "trace"
+            /\ frames' = Append(frames, [f |-> e.f, wanted |-> e.wanted, args |-> ArgSetV(e.args), ys |-> {},
+                                         must |-> (e.kind = "plain" /\ e.drawn /\ e.draw = 0), entered |-> (e.kind = "plain")])
+            /\ UNCHANGED <<pending, viol>>
+       [] e.ev = "Resume" ->
+            \* the first resumption of a generator / coroutine is its entry
+            /\ frames' = IF frames[e.fid].entered THEN frames
+                          ELSE [frames EXCEPT ![e.fid].entered = TRUE, ![e.fid].must = (e.drawn /\ e.draw = 0)]
             /\ UNCHANGED <<pending, viol>>
        [] e.ev = "Yield" ->
             /\ frames' = [frames EXCEPT ![e.fid].ys = @ \cup {J2T(e.v)}]
@@ -121,6 +132,8 @@ Step ==
                  /\ UNCHANGED <<frames, pending>>
        [] e.ev = "End" ->
             /\ viol' = viol \cup (IF rate <= 1 /\ Len(pending) > 0 THEN {"MissingLog"} ELSE {})
+                            \* under sampling: a call whose entry draw said "trace" must have been logged
+                            \cup (IF rate > 1 /\ \E j \in 1..Len(pending) : pending[j].must THEN {"SampledCallNotLogged"} ELSE {})
                             \cup (IF e.resid > 0 THEN {"Residue"} ELSE {})
             /\ UNCHANGED <<frames, pending>>
        [] e.ev = "Stat" ->
